@@ -3,6 +3,7 @@ package main
 import (
 	"bytes"
 	"encoding/json"
+	"errors"
 	"fmt"
 	"reflect"
 	"strconv"
@@ -107,6 +108,12 @@ func guard(f func() string) (out string) {
 }
 
 var lastHeaderMsg string
+
+// text and unwrap-chain length of the last decode error (dec / decdeep)
+var (
+	lastDecErr      string
+	lastDecErrChain int
+)
 
 var (
 	lastPanic   string
@@ -1124,7 +1131,15 @@ func execOp(s *Sexp) string {
 			if err != nil {
 				return "bad-op " + err.Error()
 			}
+			lastDecErr = ""
 			if err := measureDecode(c, data, pv, prior); err != nil {
+				lastDecErr = err.Error()
+				// the chain of wrapped errors ends in an error that is not a wrapper, within as many steps as the message has parts
+				steps := 0
+				for e := err; e != nil && steps < 1<<22; e = errors.Unwrap(e) {
+					steps++
+				}
+				lastDecErrChain = steps
 				return "err"
 			}
 			lastHeaderMsg = badSliceHeaders(pv.Elem())
